@@ -10,6 +10,7 @@ import (
 	"net/url"
 	"os"
 	"strings"
+	"sync/atomic"
 	"time"
 
 	"github.com/bluenviron/gortsplib/v5"
@@ -20,6 +21,9 @@ import (
 	"github.com/bluenviron/gortsplib/v5/pkg/format"
 	"github.com/bluenviron/gortsplib/v5/pkg/headers"
 	"github.com/bluenviron/gortsplib/v5/pkg/liberrors"
+	"github.com/pion/rtp"
+
+	"verif/lib/rig"
 )
 
 // account is what the application behind the server expects for one path. The table is built
@@ -31,6 +35,7 @@ type account struct {
 type wireHandler struct {
 	accounts []account
 	stream   *gortsplib.ServerStream
+	addr     string // set before the first request is served
 }
 
 func (h *wireHandler) check(c *gortsplib.ServerConn, req *base.Request, path string) bool {
@@ -38,6 +43,9 @@ func (h *wireHandler) check(c *gortsplib.ServerConn, req *base.Request, path str
 	p := strings.TrimPrefix(path, "/")
 	if i := strings.Index(p, "/"); i >= 0 {
 		p = p[:i]
+	}
+	if strings.HasPrefix(p, "r") {
+		p = "c" + p[1:] // "/r<n>": same account, DESCRIBE answers with a redirect to "/c<n>"
 	}
 	if _, err := fmt.Sscanf(p, "c%d", &idx); err != nil || idx < 0 || idx >= len(h.accounts) {
 		return false
@@ -52,7 +60,20 @@ func (h *wireHandler) OnDescribe(ctx *gortsplib.ServerHandlerOnDescribeCtx) (*ba
 	if !h.check(ctx.Conn, ctx.Request, ctx.Path) {
 		return unauthorized(), nil, liberrors.ErrServerAuth{}
 	}
+	if strings.HasPrefix(ctx.Path, "/r") {
+		// the authenticated DESCRIBE is redirected: the client has to open a new connection
+		// and authenticate there against that connection's challenge
+		return &base.Response{StatusCode: base.StatusFound, Header: base.Header{
+			"Location": base.HeaderValue{"rtsp://" + h.addr + "/c" + strings.TrimPrefix(ctx.Path, "/r")}}}, nil, nil
+	}
 	return &base.Response{StatusCode: base.StatusOK}, h.stream, nil
+}
+
+func (h *wireHandler) OnPlay(ctx *gortsplib.ServerHandlerOnPlayCtx) (*base.Response, error) {
+	if !h.check(ctx.Conn, ctx.Request, ctx.Path) {
+		return unauthorized(), liberrors.ErrServerAuth{}
+	}
+	return &base.Response{StatusCode: base.StatusOK}, nil
 }
 
 func (h *wireHandler) OnAnnounce(ctx *gortsplib.ServerHandlerOnAnnounceCtx) (*base.Response, error) {
@@ -102,15 +123,22 @@ type wireServer struct {
 	h       *wireHandler
 }
 
+// servers started with a slot >= udpSlotBase also listen on UDP (reconnect cases)
+const udpSlotBase = 100
+
 // startServer starts a server for one enabled-method list on a free loopback address.
 func startServer(methods []auth.VerifyMethod, accounts []account, slot int) (*wireServer, error) {
 	var lastErr error
 	for attempt := 0; attempt < 40; attempt++ {
 		ip := fmt.Sprintf("127.0.%d.%d", 10+(os.Getpid()+attempt)%200, 1+slot)
 		addr := fmt.Sprintf("%s:%d", ip, 8600+attempt)
-		h := &wireHandler{accounts: accounts}
+		h := &wireHandler{accounts: accounts, addr: addr}
 		s := &gortsplib.Server{Handler: h, RTSPAddress: addr, AuthMethods: methods,
 			ReadTimeout: 10 * time.Second, WriteTimeout: 10 * time.Second}
+		if slot >= udpSlotBase {
+			s.UDPRTPAddress = fmt.Sprintf("%s:%d", ip, 18000+2*attempt)
+			s.UDPRTCPAddress = fmt.Sprintf("%s:%d", ip, 18001+2*attempt)
+		}
 		if err := s.Start(); err != nil {
 			lastErr = err
 			continue
@@ -518,5 +546,115 @@ func clientRun(w *wireServer, acct int, right bool, r *rand.Rand) {
 			return
 		}
 		run.Count("wire:outcome:client-wrong-password-refused", 1)
+	}
+}
+
+// clientReconnectRun: a library client holding the right credentials authenticates on a first
+// connection and then has to open a second one - after a redirect answered to its authenticated
+// DESCRIBE ("redirect"), or because no UDP packet reaches it and it falls back to TCP
+// ("udp-fallback"). The second connection has its own challenge (fresh nonce); the credentials
+// the client side produces for it must be accepted like on the first one.
+func clientReconnectRun(w *wireServer, acct int, mode string, r *rand.Rand) {
+	a := w.h.accounts[acct]
+	path := fmt.Sprintf("/c%d", acct)
+	if mode == "redirect" {
+		path = fmt.Sprintf("/r%d", acct)
+	}
+	u := &url.URL{Scheme: "rtsp", User: url.UserPassword(a.User, a.Pass), Host: w.addr, Path: path}
+	wit := wireWitness{Kind: "wire", Methods: toInts(w.methods), NilList: w.methods == nil, Conv: "client-reconnect-" + mode, User: a.User, Pass: a.Pass, Acct: acct, Right: true, ClientUR: u.String()}
+	bu, err := base.ParseURL(u.String())
+	if err != nil {
+		run.Count("wire:client:url-not-representable", 1)
+		return
+	}
+	evals.Add(1)
+	got := make(chan struct{}, 1)
+	c := gortsplib.Client{Scheme: bu.Scheme, Host: bu.Host, ReadTimeout: 5 * time.Second, WriteTimeout: 5 * time.Second,
+		InitialUDPReadTimeout: time.Second}
+	var switched atomic.Int32
+	c.OnTransportSwitch = func(error) { switched.Add(1) }
+	if mode == "udp-fallback" {
+		c.ListenPacket = rig.BlackholeListenPacket
+	}
+	if err := c.Start(); err != nil {
+		run.Inconclusive("wire-client-start-failed")
+		return
+	}
+	defer c.Close()
+	type dres struct {
+		desc *description.Session
+		err  error
+	}
+	done := make(chan dres, 1)
+	go func() {
+		d, _, err := c.Describe(bu)
+		done <- dres{d, err}
+	}()
+	var d dres
+	select {
+	case d = <-done:
+	case <-time.After(20 * time.Second):
+		run.Violation("wire/client/describe-hangs", fmt.Sprintf("Client.Describe with credentials in the URL does not return within 20s (%s, server methods %s)", mode, listName(w.methods)), wit)
+		return
+	}
+	run.Count("wire:client-reconnect:"+mode, 1)
+	if d.err != nil {
+		if mode == "redirect" {
+			run.Violation("wire/client/right-credentials/rejected-after-redirect",
+				fmt.Sprintf("a gortsplib.Client with the right credentials in the URL (password class %s) is refused on the connection it opens after a redirect of its authenticated DESCRIBE (server methods %s): %v", a.Class, listName(w.methods), d.err), wit)
+		} else {
+			run.Violation("wire/client/right-credentials/rejected",
+				fmt.Sprintf("a gortsplib.Client with the right credentials in the URL (password class %s) does not get through DESCRIBE (server methods %s): %v", a.Class, listName(w.methods), d.err), wit)
+		}
+		return
+	}
+	if mode == "redirect" {
+		run.Count("wire:outcome:client-reconnect-redirect-ok", 1)
+		run.Distinct(fmt.Sprintf("client-redirect|%s|%d", listName(w.methods), acct))
+		return
+	}
+	if err := c.SetupAll(d.desc.BaseURL, d.desc.Medias); err != nil {
+		run.Violation("wire/client/right-credentials/rejected", fmt.Sprintf("SETUP with the right credentials fails (server methods %s): %v", listName(w.methods), err), wit)
+		return
+	}
+	c.OnPacketRTPAny(func(*description.Media, format.Format, *rtp.Packet) {
+		select {
+		case got <- struct{}{}:
+		default:
+		}
+	})
+	if _, err := c.Play(nil); err != nil {
+		run.Violation("wire/client/right-credentials/rejected", fmt.Sprintf("PLAY with the right credentials fails (server methods %s): %v", listName(w.methods), err), wit)
+		return
+	}
+	stop := make(chan struct{})
+	defer close(stop)
+	go func() { // something for the reader to receive once it has switched to TCP
+		m := w.h.stream.Desc.Medias[0]
+		for k := 0; ; k++ {
+			select {
+			case <-stop:
+				return
+			case <-time.After(20 * time.Millisecond):
+			}
+			_ = w.h.stream.WritePacketRTP(m, &rtp.Packet{Header: rtp.Header{Version: 2, PayloadType: 96, SequenceNumber: uint16(k), Timestamp: uint32(k) * 3000, SSRC: 7},
+				Payload: []byte{5, 1, 2, 3}})
+		}
+	}()
+	ended := make(chan error, 1)
+	go func() { ended <- c.Wait() }()
+	select {
+	case <-got:
+		if switched.Load() == 0 {
+			run.Inconclusive("wire-udp-fallback-packet-without-switch")
+			return
+		}
+		run.Count("wire:outcome:client-reconnect-udp-fallback-ok", 1)
+		run.Distinct(fmt.Sprintf("client-fallback|%s|%d", listName(w.methods), acct))
+	case err := <-ended:
+		run.Violation("wire/client/right-credentials/rejected-after-udp-fallback",
+			fmt.Sprintf("a gortsplib.Client with the right credentials (password class %s) that falls back from UDP to TCP is refused on the new connection (server methods %s, %d switches): %v", a.Class, listName(w.methods), switched.Load(), err), wit)
+	case <-time.After(25 * time.Second):
+		run.Inconclusive("wire-udp-fallback-no-outcome-in-25s")
 	}
 }
